@@ -154,7 +154,7 @@ func (e *Exec) doMutantFam(a Action, s *slot, base []byte) {
 	if ev.Panic == "" && x.RespCode == 200 && x.RespType == 0 {
 		ev.Resp = 0
 	}
-	if ev.Panic != "" || ev.Resp == -2 || ev.Alloc > 64*int64(len(x.ReqBody))+(8<<20) {
+	if ev.Panic != "" || ev.Resp == -2 || ev.Alloc > 64*int64(len(x.ReqBody))+(24<<20) {
 		h := x.ReqBody
 		if len(h) > 4096 {
 			h = h[:4096]
